@@ -15,13 +15,13 @@ CLAIMED = {
  "C03": ("exploration", HIST + "balance-conservation and recipient oracle over all known accounts",
          "balances of every known account are read around every transaction (cw20 and native collateral): total conserved, only sender/engine/fund/fee pool may change, liquidated trader unchanged", TB, "DESIGN.md §3 C03"),
  "C04": ("exploration", HIST + "reference-model oracle (exact equity) on every close",
-         "for every successful close the payout is recomputed as margin + realised PnL - funding owed from observable pre-state and compared with the dispatched engine->trader transfers; fund outflow is bounded by the recorded bad debt", TB, "DESIGN.md §3 C04"),
+         "for every successful close - by ClosePosition or by an order on the opposite side - the payout is recomputed as margin + realised PnL - funding owed (funding from a history model) and compared with the dispatched transfers; closes with negative equity must be refused; the open notional is checked as the cost basis after every increase / reduce / partial close; fund outflow is bounded by the recorded bad debt", TB, "DESIGN.md §3 C04"),
  "C05": ("exploration", HIST + "reference-model oracle (margin ratio, free collateral, margin bookkeeping)",
          "post-open margin ratio (engine answer and independent recomputation) >= maintenance, leverage bounds incl. exact boundary values, withdraw/deposit bookkeeping to the raw unit", TB, "DESIGN.md §3 C05"),
  "C06": ("exploration", HIST + "reference-model oracle (liquidation ratio with spot/TWAP/oracle choice, payout split)",
-         "every successful liquidation is compared with an independently recomputed pre-state margin ratio and exact payout split; histories are steered to the maintenance boundary by bisection", TB, "DESIGN.md §3 C06"),
- "C07": ("exploration", HIST + "one-step liveness oracle with explicitly evaluated preconditions; known findings excluded by signature",
-         "whenever the stated preconditions hold in the pre-state a Liquidate by a generated caller must succeed; mock and real price feed flavours; two genuine defects (F1, F2) are listed as known findings, two (F3, F3c) were repaired", TB + "; the fund-size precondition is a conservative sufficient bound", "DESIGN.md §3 C07"),
+         "every successful liquidation is compared with an independently recomputed pre-state margin ratio (once with the vAMM's TWAP answer, once with the 15-minute TWAP recomputed from the harness's own record of block-final reserves) and exact payout split; histories are steered to the maintenance boundary by bisection, incl. moves younger than the TWAP window", TB, "DESIGN.md §3 C06"),
+ "C07": ("exploration", HIST + "one-step liveness oracle with explicitly evaluated preconditions (incl. the liquidation ratio with the 15-minute TWAP recomputed from a harness-side record of block-final reserves)",
+         "whenever the stated preconditions hold in the pre-state a Liquidate by a generated caller must succeed; mock and real price feed flavours, limits that any execution satisfies, prepaid-bad-debt equality, extreme prices; nine genuine defects found through this check (F1, F2, F3, F3c, F17, F21, F24, F25 and one shared with C16) were all repaired, nothing is excluded from judgement any more", TB + "; the fund-size precondition is a conservative sufficient bound", "DESIGN.md §3 C07"),
  "C08": ("fault_enumeration", "fault injection inside generated histories: every sub-message of every generated engine transaction is failed once (exhaustive per transaction), full raw storage dump compared",
          "within each generated transaction every node of the message tree is faulted once and the complete key/value dump of the chain store must equal the pre-state; pre-states and operations are sampled by proptest", "crash points = sub-message boundaries of cw-multi-test; panics count as failed transactions", "DESIGN.md §3 C08"),
  "C10": ("exploration", HIST + "non-interference oracle on all traders' positions + query battery with dump comparison",
@@ -33,7 +33,7 @@ CLAIMED = {
  "C09": ("exploration", "generated states + exhaustive role matrix per state (every privileged message variant x every sender kind), role-transfer histories, full storage dump comparison",
          "in every generated deployment state the complete matrix of 26 privileged messages x 9+ senders is executed from one snapshot: non-holders must be refused with the dump unchanged, holders must succeed where only authorisation can fail; repeated after each generated role transfer with holders tracked by the harness", TB + "; matrix enumerated per state, states and transfer histories sampled", "DESIGN.md §3 C09 + Appendix A"),
  "C13": ("exploration", "differential testing (proptest): twin native / cw20 deployments driven in lock-step, native calls attach what the cw20 twin pulled",
-         "the same generated history is applied to twin deployments; outcome, positions, vAMM and engine state and all balance deltas must agree after every operation; fees-from-vault probed by a what-if close with nothing attached; F6 family listed as known findings, F7 repaired", TB, "DESIGN.md §3 C13"),
+         "the same generated history is applied to twin deployments; outcome, positions, vAMM and engine state and all balance deltas must agree after every operation; fees-from-vault probed by a what-if close with nothing attached; withdrawn cw20 allowances for operations that pull nothing; F6 and F7 repaired, nothing excluded", TB, "DESIGN.md §3 C13"),
  "C14": ("exploration", HIST + "what-if twins (unpaused copy of the same state), blocked-operation table, registry invariants, shutdown post-condition",
          "pause / closed / unregistered tables are evaluated on generated histories with registry and status toggles; Liquidate/PayFunding while paused are compared with an unpaused twin of the same pre-state; shutdown must leave every registered vAMM closed", TB, "DESIGN.md §3 C14"),
  "C15": ("exploration", HIST + "price-band oracle against a harness-recorded end-of-previous-block reference price",
